@@ -128,8 +128,25 @@ class DrawProxy(object):
         return (0.61803398875 * self.used) % 1.0
 
     def __getattr__(self, k):
+        # every other way of drawing (sample, choice, randint, shuffle, ...) is derived from the planned draws, too:
+        # a random.Random whose one source of randomness is self.random()
         import random
-        return getattr(random, k)
+
+        seam = self
+
+        class Derived(random.Random):
+            def random(self):
+                return seam.random()
+
+            def getrandbits(self, k):
+                return int(seam.random() * (1 << k)) if k <= 52 else (int(seam.random() * (1 << 52)) << (k - 52))
+
+            def seed(self, *a, **kw):
+                pass
+        d = self.__dict__.get('_derived')
+        if d is None:
+            d = self.__dict__['_derived'] = Derived()
+        return getattr(d, k)
 
 
 class C19(Check):
@@ -154,7 +171,7 @@ class C19(Check):
     level_text = ('Seeded search over request/read/reset/resize histories against a model counter and over '
                   'reservoir operation histories under adversarial random draws; unbounded history space, sampled.')
     level_note = 'Trusted: the sequential dispatch model used to predict which routes a request reaches.'
-    required_probes = ('two-stats-applications', 'request-inside-except-block', 'reservoir-overflow', 'reservoir-grow-after-overflow', 'fallthrough-counted', 'reset-read',
+    required_probes = ('reservoir-with-repeated-values-shrunk', 'two-stats-applications', 'request-inside-except-block', 'reservoir-overflow', 'reservoir-grow-after-overflow', 'fallthrough-counted', 'reset-read',
                        'negative-duration', 'null-route-405')
 
     # ---- generation --------------------------------------------------------
@@ -226,7 +243,9 @@ class C19(Check):
                 ops.append({'resize': rng.choice([1, 2, cap, cap + 1, 2 * cap, max(1, cap // 2), 64, 3])})
             else:
                 ops.append({'iter': 1})
-        return {'world': 'stats', 'kind': 'reservoir', 'seed': seed, 'cap': cap, 'ops': ops}
+        # what is added: all different (sequence numbers), or measurements that REPEAT (durations rounded to a few values)
+        return {'world': 'stats', 'kind': 'reservoir', 'seed': seed, 'cap': cap, 'ops': ops,
+                'values': rng.choice(['unique', 'unique', 'few', 'constant'])}
 
     # ---- execution ---------------------------------------------------------
     def execute(self, plan):
@@ -246,9 +265,11 @@ class C19(Check):
             except Exception as e:
                 res.violate(K + 'raises:%s@init' % type(e).__name__, 'Reservoir(cap=%r): %r' % (cap, e))
                 return res
-            added = set()
+            added = []
+            vmode = plan.get('values', 'unique')
             n = 0
             grown_after_overflow = False
+            truncated = False
             last = 'init'
             for step, op in enumerate(plan['ops']):
                 try:
@@ -256,16 +277,23 @@ class C19(Check):
                         draws.draws = list(op['add'])
                         for _ in op['add']:
                             n += 1
-                            added.add(n)
-                            r.add(n)
+                            v = n if vmode == 'unique' else 0.25 if vmode == 'constant' else [0.001, 0.002, 0.002, 0.004, 0.25][n % 5]
+                            added.append(v)
+                            r.add(v)
                         last = 'add-after-grow' if grown_after_overflow else 'add'
                     elif 'resize' in op:
                         if op['resize'] > cap and n > cap:
                             grown_after_overflow = True
                             res.probe('reservoir-grow-after-overflow')
+                        before = list(r)
                         cap = op['resize']
                         r.resize(cap)
                         last = 'resize'
+                        if cap < len(before):
+                            truncated = True
+                            res.probe('reservoir-shrunk-below-contents')
+                            if len(set(before)) < len(before):
+                                res.probe('reservoir-with-repeated-values-shrunk')
                     else:
                         list(r)
                         last = 'iter'
@@ -286,14 +314,20 @@ class C19(Check):
                 if r.total_count != n:
                     res.violate(K + 'total-count@' + last, 'step %d: total_count %r after %d adds' % (step, r.total_count, n), step)
                     return res
-                if not set(contents) <= added:
-                    res.violate(K + 'foreign-value@' + last, 'step %d: contains %r never added' % (step, sorted(set(contents) - added)[:5]), step)
+                pool = list(added)
+                foreign = []
+                for v in contents:
+                    if v in pool:
+                        pool.remove(v)      # as a multiset: a value is held at most as often as it was added
+                    else:
+                        foreign.append(v)
+                if foreign:
+                    res.violate(K + 'foreign-value@' + last, 'step %d: contains %r never added (or more often than added)' % (step, foreign[:5]), step)
                     return res
-                if n <= cap and not grown_after_overflow and last != 'resize' and sorted(contents) != sorted(added) and len(added) <= cap:
+                if n <= cap and not grown_after_overflow and not truncated and sorted(contents) != sorted(added):
                     # below capacity (and never truncated) nothing may be lost
-                    if not any('resize' in o for o in plan['ops'][:step + 1]):
-                        res.violate(K + 'lost-below-capacity', 'step %d: %d of %d values kept below capacity %d' % (step, len(contents), n, cap), step)
-                        return res
+                    res.violate(K + 'lost-below-capacity', 'step %d: %d of %d values kept below capacity %d' % (step, len(contents), n, cap), step)
+                    return res
             res.fire('rand_extreme', sum(1 for op in plan['ops'] if 'add' in op for d in op['add'] if d in (0.0, 1.0 - 2 ** -53)))
             res.steps = len(plan['ops'])
         return res
